@@ -144,6 +144,7 @@ def _run_chunk(args):
     eng = _W.get('eng') or get_engine(engine_name)
     out = []
     seen = set()
+    recent = []       # the scenarios executed before in this (forked, then discarded) chunk process
     for idx in range(lo, hi):
         n_sys = n_systematic(eng, tier, focus)
         t0 = time.perf_counter()
@@ -187,9 +188,63 @@ def _run_chunk(args):
                                'minimised': True, 'shrink_steps': steps, 'shrink_executions': execs,
                                'digest': c2.digest()}, f, indent=1, sort_keys=True)
                 entry['replay'] = path
+                _confirm_standalone(path, list(recent))
             res['violations'].append(entry)
+        recent.append(scn)
         out.append(res)
     return out
+
+
+def _confirm_standalone(path, predecessors):
+    """A replay file must reproduce in a fresh process. If the violation needs state left in the process by earlier
+    runs (module-level caches), the scenarios this worker executed before are stored in the file and replayed first."""
+    import subprocess
+    cmd = [os.path.join(VERIF_DIR, 'check'), '--replay', path]
+    env = dict(os.environ)
+    try:
+        p = subprocess.run(cmd, env=env, stdout=subprocess.PIPE, stderr=subprocess.STDOUT, text=True, timeout=300)
+        if p.returncode == 1:
+            return
+        with open(path) as f:
+            rep = json.load(f)
+        rep['predecessors'] = predecessors
+        rep['note'] = ('the violation does not reproduce from this scenario alone in a fresh process; the scenarios the worker '
+                       'executed before it are replayed first (state left behind in the process)')
+        with open(path, 'w') as f:
+            json.dump(rep, f, indent=1, sort_keys=True)
+        p = subprocess.run(cmd, env=env, stdout=subprocess.PIPE, stderr=subprocess.STDOUT, text=True, timeout=600)
+        if p.returncode != 1:
+            rep['note'] = 'NOT reproducible in a fresh process even with the recorded process history'
+            with open(path, 'w') as f:
+                json.dump(rep, f, indent=1, sort_keys=True)
+    except Exception:
+        pass
+
+
+def _run_chunk_isolated(args):
+    """Run one chunk in a forked child that is discarded afterwards: whatever a run leaves behind in the process
+    (module-level caches in the library) can only reach the later runs of the same chunk, and those predecessors are
+    known, so every violation stays exactly replayable (see _confirm_standalone)."""
+    import pickle
+    rfd, wfd = os.pipe()
+    pid = os.fork()
+    if pid == 0:
+        os.close(rfd)
+        try:
+            data = pickle.dumps(_run_chunk(args))
+        except BaseException as e:       # noqa
+            data = pickle.dumps([{'idx': args[4], 'harness_error': 'chunk process died: %r' % (e,),
+                                  'tb': traceback.format_exc()}])
+        with os.fdopen(wfd, 'wb') as f:
+            f.write(data)
+        os._exit(0)
+    os.close(wfd)
+    with os.fdopen(rfd, 'rb') as f:
+        data = f.read()
+    os.waitpid(pid, 0)
+    if not data:
+        return [{'idx': args[4], 'harness_error': 'chunk process produced no result (crashed?)', 'tb': ''}]
+    return pickle.loads(data)
 
 
 # --------------------------------------------------------------------------- driver
@@ -214,14 +269,14 @@ def run_batch(engine_name, focus, tier, seed, n_runs, workers=None, do_shrink=Tr
     if workers == 1:
         _W['eng'] = eng
         for t in tasks:
-            results.extend(_run_chunk(t))
+            results.extend(_run_chunk_isolated(t))
     else:
         mp = multiprocessing.get_context('fork')
         faulthandler.dump_traceback_later(3500, exit=False)
         with concurrent.futures.ProcessPoolExecutor(max_workers=workers, mp_context=mp,
                                                     initializer=_worker_init,
                                                     initargs=(engine_name,)) as ex:
-            for part in ex.map(_run_chunk, tasks):
+            for part in ex.map(_run_chunk_isolated, tasks):
                 results.extend(part)
         faulthandler.cancel_dump_traceback_later()
     wall = time.time() - t0
@@ -359,6 +414,11 @@ def replay(path):
     with open(path) as f:
         rep = json.load(f)
     eng = get_engine(rep['engine'])
+    for pre in rep.get('predecessors', []):
+        try:
+            execute_scenario(eng, pre, rep['property'])
+        except HarnessError:
+            pass
     ctx = execute_scenario(eng, rep['scenario'], rep['property'], keep_log=True)
     want = rep.get('violation') or {}
     wkey = (want.get('property'), want.get('oracle'), want.get('signature'))
